@@ -155,6 +155,29 @@ def mk_tuple(fields):
 UNIT = mk_tuple(())
 
 
+class Prov:
+    """provenance of an Rc in C13's sharing mode: which allocation it is, one-hot {token: guard}; token 'T' = an Rc
+    that was already owned by the unique table when the operation started (operands, table entries)"""
+    __slots__ = ('alts',)
+
+    def __init__(self, alts):
+        self.alts = alts
+
+
+def prov_merge(c, a, b):
+    def d(x):
+        if isinstance(x, Prov):
+            return x.alts
+        return {'T': True} if x is True else {'fresh?': True}
+    A, B = d(a), d(b)
+    out = {}
+    for t in set(A) | set(B):
+        g = gite(c, A.get(t, False), B.get(t, False))
+        if not g_false(g):
+            out[t] = g
+    return Prov(out)
+
+
 class RcV:
     """ghost: optional (world, truth table) of a BDD-valued Rc that is known to be the canonical diagram of that
     table (set by the harness constructor `canon`, preserved by merging); used only by contract summaries"""
@@ -492,6 +515,8 @@ def merge(c, a, b, ctx=None):
         inner = merge(c, a.inner, b.inner, ctx)
         if a.owned is b.owned:
             ow = a.owned
+        elif isinstance(a.owned, Prov) or isinstance(b.owned, Prov):
+            ow = prov_merge(c, a.owned, b.owned)
         else:
             ow = gite(c, a.owned, b.owned)
             if g_true(ow):
